@@ -27,7 +27,10 @@ on disk (`file`) and adopts it unless the dictionary was modified in between; `s
 writer in flight re-reads `file`.  An in-memory dictionary has `fileBacked = false` (`trie: None`):
 no snapshot, `flush`/`reopen` do nothing.
 
-`add_phrase`/`update_phrase` erase the tombstone of the key they insert (fix 20fd01a, F09).
+`add_phrase`/`update_phrase` erase the tombstone of the key they insert (fix 20fd01a, F09).  A pending
+entry replaces the persisted entry of the same key in `entries()` and — keyed by the query — in lookups
+(fix 8e6d504, F10); a lookup scans all pending phrases of the query's syllables (fix 2c45871,
+MaxCodePointPhrase).
 -/
 namespace Chewing
 open MapSpec
@@ -145,9 +148,6 @@ def initMem : State :=
 /-- `TrieBuf::open(path)` on a path that does not exist yet: an empty trie file is created -/
 def initFile : State := { initMem with fileBacked := true }
 
-/-- `MAX_PHRASE = "\u{10FFFF}"` -/
-def maxPhrase : Text := [0x10FFFF]
-
 /-- order of `PhraseKey` -/
 def pkeyLt (a b : PKey) : Bool :=
   match cmpList a.1 b.1 with
@@ -155,16 +155,22 @@ def pkeyLt (a b : PKey) : Bool :=
   | .gt => false
   | .eq => cmpList a.2 b.2 == .lt
 
-/-- is the text inside `MIN_PHRASE .. MAX_PHRASE` (exclusive upper bound)? -/
-def inRange (t : Text) : Bool := cmpList t maxPhrase == .lt
-
-/-- `self.btree.range(min_key..max_key)`: the pending entries of exactly the syllables `k` -/
+/-- `self.btree.range((k, "")..).take_while(|(key, _)| key.0 == k)`: the pending entries of exactly the
+    syllables `k` (all of them since fix 2c45871; the range used to end at the exclusive bound
+    `(k, "\u{10FFFF}")`).  In the sorted pending list the keys with syllables `k` are contiguous and
+    start at the first key `≥ (k, "")`, so the scan is the filter. -/
 def btreeRange (bt : List (PKey × Val)) (k : Key) : List Phrase :=
-  (bt.filter (fun e => e.1.1 == k && inRange e.1.2)).map (fun e => mkPhrase e.1.2 e.2)
+  (bt.filter (fun e => e.1.1 == k)).map (fun e => mkPhrase e.1.2 e.2)
 
-/-- `entries_iter_for`: snapshot lookup, then the pending range, minus tombstones *keyed by the query* -/
+/-- `self.btree.contains_key(&key)` -/
+def btHas (bt : List (PKey × Val)) (k : PKey) : Bool := bt.any (fun e => e.1 == k)
+
+/-- `entries_iter_for`: snapshot lookup minus the phrases that have a pending entry *keyed by the query*
+    (fix 8e6d504, F10: a pending entry replaces the persisted one), then the pending range, minus
+    tombstones *keyed by the query* -/
 def entriesIterFor (s : State) (k : Key) (st : Strategy) : List Phrase :=
-  (Trie.lookupAll s.snap k st ++ btreeRange s.btree k).filter (fun p => !(s.grave.contains (k, p.text)))
+  ((Trie.lookupAll s.snap k st).filter (fun p => !(btHas s.btree (k, p.text))) ++ btreeRange s.btree k).filter
+    (fun p => !(s.grave.contains (k, p.text)))
 
 /-- `lookup_all_phrases` -/
 def lookupAll (s : State) (k : Key) (st : Strategy) : List Phrase := dedup (entriesIterFor s k st)
@@ -175,9 +181,11 @@ def lookupFirstN (s : State) (k : Key) (n : Nat) (st : Strategy) : List Phrase :
 
 def btEntries (bt : List (PKey × Val)) : List Entry := bt.map (fun e => (e.1.1, mkPhrase e.1.2 e.2))
 
-/-- `entries_iter`: snapshot entries, then pending entries, minus tombstones keyed by the entry -/
+/-- `entries_iter`: snapshot entries that have no pending entry of the same key (fix 8e6d504, F10), then
+    the pending entries, minus tombstones keyed by the entry -/
 def entries (s : State) : List Entry :=
-  (Trie.entries s.snap ++ btEntries s.btree).filter (fun e => !(s.grave.contains (e.1, e.2.text)))
+  ((Trie.entries s.snap).filter (fun e => !(btHas s.btree (e.1, e.2.text))) ++ btEntries s.btree).filter
+    (fun e => !(s.grave.contains (e.1, e.2.text)))
 
 /-- `BTreeMap::insert` -/
 def btInsert (bt : List (PKey × Val)) (k : PKey) (v : Val) : List (PKey × Val) :=
